@@ -57,6 +57,10 @@ type Session struct {
 	// atomic
 	activeStreamCount uint32
 
+	// ids of refused streams (accept backlog full) the peer is still to be told about; sent to and closed under streamsM
+	refusals     chan uint32
+	refusalsOnce sync.Once
+
 	streamsM sync.Mutex
 	streams  map[uint32]*Stream
 	// For accepting new streams
@@ -94,6 +98,7 @@ func MakeSession(id uint32, config SessionConfig) *Session {
 		SessionConfig: config,
 		nextStreamID:  1,
 		acceptCh:      make(chan *Stream, acceptBacklog),
+		refusals:      make(chan uint32, acceptBacklog),
 		recvFramePool: sync.Pool{New: func() interface{} { return &Frame{} }},
 		streams:       map[uint32]*Stream{},
 	}
@@ -270,20 +275,51 @@ func (sesh *Session) recvDataFromRemote(data []byte) error {
 			// The accept backlog is full. Blocking here would stall this connection's receive loop while
 			// holding streamsM - and with it every other stream and the teardown of the session - until
 			// someone calls Accept, which never happens once the session is closed. Refuse the stream
-			// instead, and say so: it is registered like any other and closed from our side at once, so that
-			// the peer gets a stream-closing frame (its writes fail and its readers return, instead of
-			// waiting on a stream nobody serves) and later frames of the stream are dropped. Closing sends
-			// a frame, so not from here: this is a connection's receive loop and must not wait for a write
-			sesh.streams[frame.StreamID] = newStream
+			// instead: its id is remembered as closed so that its later frames are dropped, and the peer
+			// is told, so that it is not left with a stream nobody serves.
+			sesh.streams[frame.StreamID] = nil
+			select {
+			case sesh.refusals <- frame.StreamID:
+			default:
+				// as many refusals as the backlog is long are waiting to be sent: this one the peer is not told
+			}
 			sesh.streamsM.Unlock()
-			sesh.streamCountIncr()
-			go newStream.Close()
+			sesh.refusalsOnce.Do(func() { go sesh.tellRefusals() })
 			return errAcceptBacklogFull
 		}
 		sesh.streamsM.Unlock()
 		// new stream
 		sesh.streamCountIncr()
 		return newStream.recvFrame(frame)
+	}
+}
+
+// tellRefusals tells the peer, stream by stream, that a stream it has opened is not served (the accept backlog was full),
+// with the stream-closing frame this side would send when closing it: the peer's writes then fail and its readers
+// return. Sending can wait - for the rate limit, for a slow connection - so it is not done by the receive loop that
+// refused the stream but by this one goroutine per session, from a bounded queue; it ends with the session.
+func (sesh *Session) tellRefusals() {
+	buf := sesh.streamObfsBufPool.Get().(*[]byte)
+	defer sesh.streamObfsBufPool.Put(buf)
+	for id := range sesh.refusals {
+		common.CryptoRandRead((*buf)[:1])
+		padLen := int((*buf)[0]) + 1
+		payload := (*buf)[frameHeaderLength : padLen+frameHeaderLength]
+		common.CryptoRandRead(payload)
+		// nothing else is ever sent on this stream id from this side: it is the peer's stream, and it was not accepted
+		f := &Frame{
+			StreamID: id,
+			Seq:      0,
+			Closing:  closingStream,
+			Payload:  payload,
+		}
+		i, err := sesh.obfuscate(f, *buf, frameHeaderLength)
+		if err != nil {
+			continue
+		}
+		if _, err = sesh.sb.send((*buf)[:i], new(net.Conn)); err != nil {
+			return
+		}
 	}
 }
 
@@ -306,6 +342,7 @@ func (sesh *Session) closeSession() error {
 
 	sesh.streamsM.Lock()
 	close(sesh.acceptCh)
+	close(sesh.refusals)
 	for id, stream := range sesh.streams {
 		if stream != nil && atomic.CompareAndSwapUint32(&stream.closed, 0, 1) {
 			_ = stream.recvBuf.Close() // will not block
